@@ -439,6 +439,33 @@ def run_case(case):
                 leaks = getters_raise(m)
                 if leaks:
                     viol.append({"sig": f"C13/resolve/unsolved-model-hands-out-cached-data/{kind}/" + "+".join(sorted(x for x, _ in leaks)), "msg": f"{what}: is_solved() is False but {leaks}; {label}"})
+    # the reverse history: the FIRST solve() of an object is hit by an inconclusive run, the caller then solves the same object again without
+    # any fault: that second solve must give the fault-free answer (nothing learnt from the inconclusive run may be kept as if it were proven)
+    if case["kind"] in ("model", "minerrorflow", "minsetcover", "mingenset", "numpaths", "corpus") and n >= 1:
+        for j in sorted({0, n - 1, n // 2}):
+            for mode, st in (("override", "kTimeLimit"), ("skip", "kInterrupt")):
+                M.TRACE.reset(); M.TRACE.inject = {"at": j, "mode": mode, "status": st}
+                b3 = M.safe_call(build)
+                if b3[0] != "ok" or b3[1] is None:
+                    M.TRACE.inject = None; break
+                m = b3[1]
+                try:
+                    s1 = M.safe_call(m.solve)
+                finally:
+                    M.TRACE.inject = None
+                if not any(t.get("fault") for t in M.TRACE.trace):
+                    continue
+                s2 = M.safe_call(m.solve)
+                obs["c13.fault_then_clean_resolve"] += 1
+                what = f"first solve() with invocation {j} ending {st} ({mode}), then a clean solve() of the same object"
+                if s2[0] != "ok":
+                    viol.append({"sig": f"C13/clean-resolve-after-fault/raises/{kind}/{s2[1]}", "msg": f"{s2[2]}; {what}; {label}"}); continue
+                sv = M.safe_call(m.is_solved)
+                if not (sv[0] == "ok" and sv[1]):
+                    viol.append({"sig": f"C13/clean-resolve-after-fault/unsolved/{kind}", "msg": f"{what}: not solved although the fault-free run is ({base.get('obj')}); {label}"}); continue
+                o2 = M.safe_call(objective, m)
+                if o2[0] != "ok" or o2[1] != base.get("obj"):
+                    viol.append({"sig": f"C13/clean-resolve-after-fault/answer-differs/{kind}", "msg": f"{what}: {o2[1:]} instead of the fault-free {base.get('obj')}; {label}"})
     seen = set(); out = []
     for v in viol:
         if v["sig"] not in seen:
